@@ -9,7 +9,8 @@ RULE = ("every operator result on general-position operands of all kinds and on 
         "chain (end of one segment IS the start of the next, also by identity), no zero-length segment, no self-crossing, "
         "Simple = one boundary, Connected = >= 2 boundaries bounding one region with holes, Disjoint = >= 2 pairwise "
         "disjoint components, documented kind tables; the singleton laws S|~S, S&~S, S-S, S^S, S^~S on every generated "
-        "shape of every kind (identity with the singletons); non-trivial = operands cross or are composite; distinct = SHA-1")
+        "shape of every kind (identity with the singletons); float operands with a crossing within an ulp of an existing "
+        "vertex (well-formedness incl. no segment shorter than 1e-9, region away from the boundaries); non-trivial = operands cross or are composite; distinct = SHA-1")
 PROOF_STATUS = ("Props/C06.v: results of all five operators are shape_wf with closed boundaries (all inputs), complement kind "
                 "table, regrouping keeps the curves, singleton rows; disjointness of components / no self-crossing / "
                 "singleton laws for general S: oracle only (partial)")
@@ -21,6 +22,14 @@ def cases(ctx):
     for i in range(ctx.n(12, 300)):
         s = G.any_shape(rng, R=rng.choice([6, 12]), den=rng.choice([1, 2]), kinds=("S", "U", "C", "D"))
         yield {"laws": s, "num": "frac" if i % 3 else "int"}
+    # float operands with a crossing that coincides (within an ulp) with an existing vertex: the split parameter is
+    # 1e-16 away from 0 or 1
+    for i in range(ctx.n(24, 400)):
+        t = G.vertex_crossing(rng)
+        if t is None:
+            continue
+        env = [("S", t[0]), ("S", t[1])]
+        yield {"env": env if i % 2 else env[::-1], "expr": ("|&-"[i % 3], ("var", 0), ("var", 1)), "num": "float"}
 
 
 def nontrivial(case):
@@ -46,6 +55,8 @@ def _wellformed(S, sd, exact=True):
                 out.append("junction %d not shared by identity" % i)
             if a[0] == a[-1] and len(set(a)) == 1:
                 out.append("zero-length segment %d" % i)
+            elif not exact and len(a) == 2 and abs(a[0][0] - a[1][0]) + abs(a[0][1] - a[1][1]) < F(1, 10 ** 9):
+                out.append("segment %d shorter than 1e-9" % i)
         if O.is_polygon(j):
             vs = [sg[0] for sg in j]
             if len(set(vs)) != len(vs):
@@ -145,6 +156,10 @@ def check(ctx, case):
         return fails
     env, e = case["env"], case["expr"]
     ri, objs = OC.run_impl(case)
+    exact = case["num"] != "float"
+    if not exact:
+        env = OC.env_exact(case, objs)      # the exact values of the floats
+        ctx.count("float:near-vertex crossing")
     for s in env:
         ctx.count("kind:" + U.shape_kind(s))
     if ri[0] != "ok":
@@ -156,8 +171,16 @@ def check(ctx, case):
     ctx.count("result:" + U.shape_kind(sd))
     if sd[0] == "E" and R is not I.EmptyShape() or sd[0] == "W" and R is not I.WholeShape():
         fails.append(Fail(kind="O", what="Empty/Whole result is not the singleton object"))
-    for d in _wellformed(R, sd):
+    for d in _wellformed(R, sd, exact):
         fails.append(Fail(kind="O", what="malformed result: " + d, expr=G.expr_str(e)))
+    if not exact:
+        # float data: the region away from the boundaries (1e-6) must be the set-theoretic one; no model run
+        if sd[0] not in "EW":
+            pts = OC.sample_points(env, margin_float=F(1, 10 ** 6))
+            wrong = OC.pointwise_wrong(env, e, sd, pts)
+            if wrong:
+                fails.append(Fail(kind="O", what="result is not the set-theoretic combination at %d sample points" % len(wrong), expr=G.expr_str(e)))
+        return fails
     # a geometrically empty / whole result must be the singleton: no sample point inside (resp. outside)
     if sd[0] not in "EW":
         pts = OC.sample_points(env + [sd])
